@@ -281,7 +281,24 @@ def check_direct_edges(ctx, rep):
         gl = _find(cs, "HaystackDict>::get_list")
         en = _find(cs, "BTreeMap::entry")
         pu = _find(cs, "Vec::push")
-        good = (len(gl) == 1 and gl[0][3][1] == "conststr:is" and len(en) == 1 and en[0][3][0] == "_1*.subtypes" and "as Symbol.0" in en[0][3][1]
+        key_is_symbol = False
+        if len(en) == 1:
+            kr = en[0][3][1]
+            if "as Symbol.0" in kr:
+                key_is_symbol = True
+            else:
+                # the symbols come out of an iterator chain over the `is` list that keeps exactly the Symbol payloads
+                m0 = re.search(r"_(\d+) as Some\.0", kr)
+                src = repr(G.describe_place(b, {"l": int(m0.group(1)), "p": []})) if m0 else ""
+                keeps_symbols = False
+                for cb in _family(prog, b)[1:]:
+                    for sb, v in [(x, y) for x, y in [(bb, G.describe(cb, st["rv"]["ops"][0])) for bb in range(cb.n) for st in cb.blocks[bb]["stmts"] if st["k"] == "assign" and not st["lhs"]["p"] and st["lhs"]["l"] == 0 and st["rv"]["k"] == "agg" and st["rv"].get("variant") == "Some" and st["rv"]["ops"]]]:
+                        if "as Symbol.0" in repr(v):
+                            keeps_symbols = True
+                cuts = re.search(r"::(take|skip|step_by|take_while|skip_while|rev|nth)\(", src)
+                if "Iterator>::next(" in src and "get_list(" in src and "conststr:is" in src and "filter_map" in src and keeps_symbols and not cuts:
+                    key_is_symbol = True
+        good = (len(gl) == 1 and gl[0][3][1] == "conststr:is" and len(en) == 1 and en[0][3][0] == "_1*.subtypes" and key_is_symbol
                 and len(pu) == 1 and "or_default(" in pu[0][3][0] and "BTreeMap::entry(_1*.subtypes" in pu[0][3][0])
         if good:
             owner = re.search(r"get_list\(|^", gl[0][3][0]) and gl[0][3][0]
@@ -334,13 +351,29 @@ def check_reflect(ctx, rep):
     if b is None:
         rep.gap(NS + "reflect", "-", "not found")
         return 0
+    # whether "each def plus all its supertypes" is a helper of reflect or written out in it is the same program: look at
+    # reflect with that private helper spliced in
+    from vlib import inline as _inl
+
+    b = _inl.inlined_view(prog, b, {NS + "find_supertypes_from_defs"}, type(b), strip_generics)
     cs = _calls(prog, b)
     n += 1
     ret = repr(G.describe_place(b, {"l": 0, "p": []}))
-    if re.match(r"^haystack::defs::reflection::Reflection::make\(_2\*, haystack::defs::namespace::Namespace::find_supertypes_from_defs\(_1\*, .*\), _1\*\)$", ret):
-        _ok(rep, "reflect:result", b.where(), "Reflection::make(subject, find_supertypes_from_defs(defs), ns)")
+    mret = re.match(r"^haystack::defs::reflection::Reflection::make\(_2\*, (.*), _1\*\)$", ret)
+    ins_all = _find(cs, "HashSet::insert")
+    sup_all = _find(cs, "Namespace::all_supertypes_of")
+    ext_all = [c for c in cs if c[2].endswith("Extend>::extend")]
+    union_ok = False
+    for c_ins in ins_all:
+        x = c_ins[3][1]
+        for c_sup in sup_all:
+            if c_sup[3][0] == "_1*" and c_sup[3][1] == "haystack::defs::namespace::DefDict::def_symbol(%s)" % x:
+                if any(c_ins[3][0] == e[3][0] and "Namespace::all_supertypes_of(" in e[3][1] for e in ext_all):
+                    union_ok = True
+    if mret and "Iterator::collect(" in mret.group(1) and "HashSet" in mret.group(1) and union_ok:
+        _ok(rep, "reflect:result", b.where(), "Reflection::make(subject, union over the collected defs of {def} + all_supertypes_of(def), ns)")
     else:
-        _bad(rep, "reflect:result", b.where(), "reflect returns %s, expected Reflection::make(subject, find_supertypes_from_defs(self, defs), self)" % ret[:140])
+        _bad(rep, "reflect:result", b.where(), "reflect does not return Reflection::make(subject, <each collected def plus all_supertypes_of that def>, self) (returns %s; union step found: %s)" % (ret[:120], union_ok))
     n += 1
     keys = _find(cs, "BTreeMap::keys")
     push = _find(cs, "Vec::push")
@@ -368,8 +401,8 @@ def check_reflect(ctx, rep):
     else:
         _bad(rep, "reflect:tag-defs", b.where(), "reflect does not take get(^tag) for every key of the record unconditionally")
     n += 1
-    ins = _find(cs, "HashSet::insert")
     hm = _find(cs, "HaystackDict>::has_marker")
+    ins = [c for c in _find(cs, "HashSet::insert") if hm and c[3][1] == hm[0][3][1]]
     good = len(ins) == 1 and len(hm) == 1 and hm[0][3][0] == "_2*" and ins[0][3][1] == hm[0][3][1] == key_item
     if good:
         gs = G.guards_at(ins[0][0], ins[0][1])
@@ -381,14 +414,15 @@ def check_reflect(ctx, rep):
     n += 1
     fc = _find(cs, "Namespace::find_conjuncts")
     ext = [c for c in cs if c[2].endswith("Extend>::extend")]
-    if len(fc) == 1 and fc[0][3][0] == "_1*" and "HashSet" in fc[0][3][1] and len(ext) == 1 and "Namespace::find_conjuncts(" in ext[0][3][1] and push and ext[0][3][0] == push[0][3][0]:
+    ext = [c for c in ext if "Namespace::find_conjuncts(" in c[3][1]]
+    if len(fc) == 1 and fc[0][3][0] == "_1*" and "HashSet" in fc[0][3][1] and len(ext) == 1 and push and ext[0][3][0] == push[0][3][0]:
         _ok(rep, "reflect:conjuncts", b.where(fc[0][1]), "the conjunct defs found for the markers are added to the tag defs")
     else:
         _bad(rep, "reflect:conjuncts", b.where(), "the defs list is not extended by find_conjuncts(markers)")
     # find_supertypes_from_defs: each def and all its supertypes
     fb = prog.get(NS + "find_supertypes_from_defs")
     if fb is None:
-        rep.gap(NS + "find_supertypes_from_defs", "-", "not found")
+        pass  # written out inside reflect: covered by reflect:result above
     else:
         n += 1
         cs2 = _calls(prog, fb)
@@ -472,8 +506,14 @@ def check_full_scans(ctx, rep):
     for fn in FULL_SCANS:
         b = prog.get(NS + fn)
         if b is None:
+            if fn in ("find_supertypes_from_defs", "find_conjuncts", "compute_subtypes"):
+                continue  # a private step; when it is written out in its caller the caller's loops are the ones checked
             rep.gap(NS + fn, "-", "not found")
             continue
+        if fn == "reflect":
+            from vlib import inline as _inl
+
+            b = _inl.inlined_view(prog, b, {NS + "find_supertypes_from_defs"}, type(b), strip_generics)
         k = 0
         for scc in b.sccs():
             if len(scc) < 2:
